@@ -390,13 +390,17 @@ def sx_meth(recv, name, /, *a, **k):
         raise Unsupported('native set .%s with symbolic argument' % name)
     elif recv is _re:
         return getattr(RE_SHIM, name)(*a, **k)
+    elif recv is _codecs and name == 'decode' and a and isinstance(a[0], SymBytes):
+        if len(a) > 1 and a[1] == 'unicode_escape': return unicode_escape_decode(a[0].s)
+        return a[0].s
     elif (recv is _os_path or recv is _os) and _anysym(a):
         f = _PATH_SHIMS.get(name)
         if f is None: raise Unsupported('os.path.%s on a symbolic string' % name)
         return f(*a, **k)
     return getattr(recv, name)(*a, **k)
 
-import os as _os, os.path as _os_path
+import os as _os, os.path as _os_path, codecs as _codecs
+from .values import SymBytes, unicode_escape_decode
 
 def _p_isabs(s): return s.startswith('/')
 def _p_split(p):
